@@ -60,6 +60,12 @@ type Case struct {
 	P       string `json:"p,omitempty"`
 	Pre     string `json:"pre,omitempty"`
 	ScalarF bool   `json:"scalarf,omitempty"`
+	// the update body as the implementation runs it (F), as the reference runs it (FR, default F), and the
+	// binder in front of the update (`(x) as $x | ` for `p op= x`): enough to rebuild the case with the body's
+	// output copied (attribution of a failure, eval.go variantHolds)
+	F       string `json:"f,omitempty"`
+	FR      string `json:"fr,omitempty"`
+	Bind    string `json:"bind,omitempty"`
 	Op      string `json:"op,omitempty"`
 	AddDefs bool   `json:"adddefs,omitempty"` // prepend the defining reductions to Q[1] (replayed native cases)
 }
@@ -85,6 +91,7 @@ type Result struct {
 	What   string `json:"what,omitempty"`
 	Detail string `json:"detail,omitempty"`
 	Family string `json:"family,omitempty"`
+	Attr   string `json:"attr,omitempty"`  // how the family attribution of a failing update case was decided
 	Class  string `json:"class,omitempty"` // coverage class of the case (what actually happened)
 }
 
@@ -323,6 +330,9 @@ func report(c *Ctx, cases []*Case, res []Result) {
 			viols = append(viols, viol{key, r.What, r.Detail, strings.TrimPrefix(cs.Op, "sentinel:"), key, cj(cs)})
 			continue
 		}
+		if r.Attr != "" {
+			fam["attribution:"+r.Attr]++
+		}
 		if r.Family != "" {
 			fam[r.Family]++
 			if k, ok := sentFail[r.Family]; ok {
@@ -369,6 +379,9 @@ func runOracle(c *Ctx) {
 	g := newGen(c.Rng)
 	cases := sentinelCases()
 	cases = append(cases, regressionCases()...)
+	gc := growCases()
+	c.Stats["grow_block_cases"] = len(gc)
+	cases = append(cases, gc...)
 	cases = append(cases, fixedCases()...)
 	cases = append(cases, nestedCases()...)
 	cases = append(cases, bindOptCases()...)
@@ -382,6 +395,7 @@ func runOracle(c *Ctx) {
 	for i := 0; i < n; i++ {
 		cases = append(cases, g.randomCase())
 	}
+	c.Stats["grow_random_cases"] = g.growRandom
 	res := runCases(cases, nprocFor(c))
 	report(c, cases, res)
 }
